@@ -565,11 +565,15 @@ def run(ctx, host=None):
         arg = diffs[0].ast.args[0] if diffs[0].ast.args else None
         feed_fn = g.fn
         # the list may come from a private helper (`existing = self._helper(...)`, which returns its accumulator): look at the feeds there
-        for _ in range(2):
+        for _ in range(3):
             src = arg
             if isinstance(arg, ast.Name):
                 asg = [a for a in walk_local(feed_fn.node) if isinstance(a, ast.Assign) and len(a.targets) == 1 and isinstance(a.targets[0], ast.Name) and a.targets[0].id == arg.id]
                 src = asg[0].value if len(asg) == 1 else None
+                if len(asg) > 1 and all(isinstance(a.value, ast.Name) for a in asg) and len({a.value.id for a in asg}) == 1:
+                    # the same accumulator handed over on every path (an inlined helper that returns it from several places)
+                    arg = asg[0].value
+                    continue
             if isinstance(src, ast.Call) and isinstance(src.func, ast.Attribute) and norm(src.func.value) == 'self' and src.func.attr in K.container.methods:
                 h = K.container.methods[src.func.attr]
                 rets = [r for r in walk_local(h.node) if isinstance(r, ast.Return)]
